@@ -418,7 +418,8 @@ class RefExec:
                 n = min(n, 1)
             elif k.get("long_list_pct") and inner[1][0] != "L" and self.s.is_leaf(named(inner[1])) and t.chance(k["long_list_pct"]):
                 # longer than any internal chunk / batch size, or exactly at a power-of-two boundary
-                n = t.choose([256, 255, 512, 1024, 1025, 256, 255, 512, 1024, 1025, 4097, 5000]) if t.chance(25) else 257 + t.draw(80)
+                n = t.choose([256, 255, 512, 1024, 1025, 256, 255, 512, 1024, 1025] + ([4097, 5000] if k.get("huge_list") else [256, 1025])) \
+                    if t.chance(25) else 257 + t.draw(80)
                 self.plan.probe("list_longer_than_256")
             elif k.get("mid_list_pct") and inner[1][0] != "L" and len(path) <= 2 and t.chance(k["mid_list_pct"]):
                 n = 10 + t.draw(14)  # two-digit indices, many concurrent items
